@@ -747,7 +747,11 @@ def b8(ctx, F, nodes, parts=("bound", "best"), rule="C09.B8"):
                         if outer is not None and any(x is scope for x, _ in hir.walk(outer)):
                             scope = outer
             in_scope = {id(x) for x, _ in hir.walk(scope)}
-            assigns_r = [(t, v, n, anc) for t, v, n, anc in assigns if id(n) in in_scope]
+            # (an assignment under a condition that is literally false does not count)
+            def live(n_):
+                t_ = hir.fold(hir.guards_term([g_ for g_ in (hir.guards_of(n_, nd.body, nd.sym) or []) if g_[0] == "if"]), {})
+                return not (t_ == ("lit", False) or hir.all_leaves_false(t_))
+            assigns_r = [(t, v, n, anc) for t, v, n, anc in assigns if id(n) in in_scope and live(n)]
             uses = lambda v: any(hir.contains(v, ("var", nm_)) for nm_ in names_r)
             raised = any(t == low and uses(v) for t, v, _, _ in assigns_r)
             key = "%s:%s#%d" % (short, SHORT[c["callee"]], i)
